@@ -56,9 +56,24 @@ def tus(tier, seed):
         for (nl, tl, nr, tr) in chunk:
             body += '  go<%s, %s>(rng);\n' % (NESTS[nl].format(T=CT[tl]), NESTS[nr].format(T=CT[tr]))
         body += '}\n'
+        if (i // per) % 3 == 0:
+            # ++/-- on the left nests of this chunk (not every nest supports them: rounding over overflow does not compile)
+            for (nl, tl, nr, tr) in chunk:
+                if nl in ('sc', 'ov', 'sc(ov)'):
+                    body = body.replace('}\n', '  incdec<%s>(rng);\n}\n' % NESTS[nl].format(T=CT[tl]), 1) if False else body[:-2] + '  incdec<%s>(rng);\n}\n' % NESTS[nl].format(T=CT[tl])
         res.append(dict(name='C12_%d' % (i // per), src=body, compiler='g++'))
         if tier == 'thorough' and (i // per) % 4 == 0:
             res.append(dict(name='C12_%d_clang' % (i // per), src=body, compiler='clang++'))
+    # documentation kernels (multiply-widen, mixed-exponent add, average, square)
+    kern = [('std::int32_t', 'std::int64_t', -16, -12), ('std::int16_t', 'std::int32_t', -8, -4), ('std::int32_t', 'std::int64_t', -8, -20),
+            ('std::uint16_t', 'std::uint32_t', -4, -4), ('std::int8_t', 'std::int16_t', -3, 0)]
+    body = '#include "%s"\nint main(){ install(); Rng rng(seed_from_env()+999);\n' % (__file__.replace('.py', '.h'))
+    for (t, w, e1, e2) in kern:
+        body += '  kernels<%s, %s, %d, %d>(rng);\n' % (t, w, e1, e2)
+    body += '}\n'
+    res.append(dict(name='C12_kernels', src=body, compiler='g++'))
+    if tier == 'thorough':
+        res.append(dict(name='C12_kernels_clang', src=body, compiler='clang++'))
     return res
 
 
